@@ -69,4 +69,42 @@ func TestLockupProbes(t *testing.T) {
 		" AccountLockIteratorBeforeTimeDenom(a, foo, base-1h):", e.iterIDs(k.AccountLockIteratorBeforeTimeDenom(h.Ctx, a, "foo", base.Add(-time.Hour))))
 	fmt.Println("probe3 queries in use stay exact: GetLocksLongerThanDurationDenom(foo,0):", ids(k.GetLocksLongerThanDurationDenom(h.Ctx, "foo", 0)),
 		" GetLocksPastTimeDenom(foo, base):", ids(k.GetLocksPastTimeDenom(h.Ctx, "foo", base)))
+
+	// 4. accumulation store of a synthetic denomination: DeleteSyntheticLockup decreases at the LOCK's duration key
+	h.Reset()
+	k = h.App.LockupKeeper
+	h.Ctx = h.Ctx.WithBlockTime(base)
+	h.FundAcc(a, sdk.NewCoins(sdk.NewInt64Coin("foo", 1000)))
+	acc := func(dn string, d time.Duration) string {
+		out := "panic"
+		catch(func() {
+			out = k.GetPeriodLocksAccumulation(h.Ctx, lockuptypes.QueryCondition{LockQueryType: lockuptypes.ByDuration, Denom: dn, Duration: d}).String()
+		})
+		return out
+	}
+	l, _ = k.CreateLock(h.Ctx, a, sdk.NewCoins(sdk.NewInt64Coin("foo", 100)), 10*time.Second)
+	sd := "foo/superbonding/v1"
+	err = k.CreateSyntheticLockup(h.Ctx, l.ID, sd, 5*time.Second, false)
+	fmt.Println("probe4 synthetic lock (5s) on lock", l.ID, "(10s, 100foo):", err, "; accumulation >=0:", acc(sd, 0), ">=5s:", acc(sd, 5*time.Second), ">=5s+1ns:", acc(sd, 5*time.Second+1))
+	err = k.DeleteSyntheticLockup(h.Ctx, l.ID, sd)
+	fmt.Println("probe4 after DeleteSyntheticLockup:", err, "; synthetic locks left:", len(k.GetAllSyntheticLockups(h.Ctx)),
+		"; accumulation >=0:", acc(sd, 0), ">=5s:", acc(sd, 5*time.Second), ">=5s+1ns:", acc(sd, 5*time.Second+1), ">=10s:", acc(sd, 10*time.Second), ">=10s+1ns:", acc(sd, 10*time.Second+1))
+
+	// 5. ... and a lock split under its synthetic lock (BeginForceUnlock of a part, x/superfluid's partial
+	// undelegate-and-unbond) leaves the split-off amount in the synthetic accumulation
+	h.Reset()
+	k = h.App.LockupKeeper
+	h.Ctx = h.Ctx.WithBlockTime(base)
+	h.FundAcc(a, sdk.NewCoins(sdk.NewInt64Coin("foo", 1000)))
+	l, _ = k.CreateLock(h.Ctx, a, sdk.NewCoins(sdk.NewInt64Coin("foo", 100)), 10*time.Second)
+	sd = "foo/superunbonding/v1"
+	err = k.CreateSyntheticLockup(h.Ctx, l.ID, sd, 10*time.Second, true)
+	nid, err2 := k.BeginForceUnlock(h.Ctx, l.ID, sdk.NewCoins(sdk.NewInt64Coin("foo", 30)))
+	l1, _ = k.GetLockByID(h.Ctx, l.ID)
+	fmt.Println("probe5 synthetic lock (10s, unlocking) on lock", l.ID, ":", err, "; BeginForceUnlock of 30foo -> new lock", nid, err2, "; lock", l.ID, "holds", l1.Coins,
+		"; accumulation >=0:", acc(sd, 0))
+	err = k.DeleteSyntheticLockup(h.Ctx, l.ID, sd)
+	fmt.Println("probe5 after DeleteSyntheticLockup:", err, "; synthetic locks left:", len(k.GetAllSyntheticLockups(h.Ctx)), "; accumulation >=0:", acc(sd, 0), ">=10s:", acc(sd, 10*time.Second))
+	k.RebuildSuperfluidAccumulationStoresForDenom(h.Ctx, "foo")
+	fmt.Println("probe5 after RebuildSuperfluidAccumulationStoresForDenom(foo): accumulation >=0:", acc(sd, 0))
 }
